@@ -7,9 +7,14 @@ package crypto
 //@ fileprops C33
 
 // The layer-by-layer verification itself is the SDK's VerifyRequestWithBufferN3 (external,
-// trusted to accept only when every layer carries valid signatures over its body, meta header
-// and the previous layer). What the node adds - and what is proved here - is when that
-// verification may be skipped, and that its verdict is passed on unchanged.
+// ASSUMED, not verified here). Read from its source (neofs-sdk-go crypto/proto.go): for a request
+// whose outermost meta header declares API version < 2.25 it accepts only when every layer
+// carries valid signatures over its meta header and the previous layer (and the innermost over
+// the body); for version >= 2.25 it verifies the OUTERMOST layer only - the meta signature,
+// which covers the nested meta headers, and the body signature - and looks at no inner
+// verification header (by design of that protocol version: the statement's "every layer" is the
+// pre-2.25 scheme). What the node adds - and what is proved here - is when that verification may
+// be skipped, and that its verdict is passed on unchanged.
 
 //@ ghost pred chainVerified() bool
 //@ ghost pred peerTrusted() bool
@@ -73,8 +78,16 @@ package crypto
 //@ callrule c33_instruction_parsed in checkInvocationScript
 //@   callee (*scparser.Context).Next
 //@   defines res0 == lastInstructionParsed()
+// ... and the script is approved only when the walk has reached its end (the position of the
+// next instruction is the script's length): an instruction is no reason to stop looking.
+//@ ghost pred positionOfTheNextInstruction() int
+//@ callrule c33_walk_position in checkInvocationScript
+//@   callee (*scparser.Context).NextIP
+//@   pureeffect
+//@   defines result == positionOfTheNextInstruction()
 //@ func checkInvocationScript
 //@   loop 1 iteration [walk_goes_on_only_after_a_push_instruction] lastInstructionParsed() <= 32
+//@   ensures [approved_only_after_the_whole_script_was_walked] err == nil ==> positionOfTheNextInstruction() >= len(script)
 //@ callrule c33_witness_run_only_with_a_push_only_invocation_script in verifyN3Scripts
 //@   callee transaction.NewFakeTX
 //@   requires [invocation_script_cannot_end_the_run] invocationScriptOnlyPushes()
